@@ -584,7 +584,7 @@ func (d *dgen) rich(depth int) JV {
 				o := JV{K: 'o'}
 				used := map[string]bool{}
 				for j := 0; j < 1+d.n(2, "rmem"); j++ {
-					key := d.c.Keys[d.n(3, "rkey")]
+					key := d.c.Keys[d.n(min(3, len(d.c.Keys)), "rkey")]
 					if used[key] {
 						continue
 					}
@@ -606,9 +606,9 @@ func (d *dgen) rich(depth int) JV {
 		return arr()
 	}
 	o := JV{K: 'o'}
-	o.Obj = append(o.Obj, JMember{Key: d.c.Keys[d.n(3, "rk1")], Val: arr()})
+	o.Obj = append(o.Obj, JMember{Key: d.c.Keys[d.n(min(3, len(d.c.Keys)), "rk1")], Val: arr()})
 	if d.n(100, "rsecond") < 40 {
-		k2 := d.c.Keys[3+d.n(3, "rk2")]
+		k2 := d.c.Keys[(3+d.n(3, "rk2"))%len(d.c.Keys)]
 		o.Obj = append(o.Obj, JMember{Key: k2, Val: d.value(depth - 1)})
 	}
 	return o
